@@ -1,3 +1,41 @@
-//! c06: see units.rs
-pub use crate::units::exec;
-pub fn gen(o: &crate::Opts, sink: &mut dyn FnMut(Vec<i64>, String)) { crate::units::gen_mode(o, 1, sink) }
+//! c06: driver level see units.rs; authority level (cases prefixed with 100): ANY frame - every PDU format,
+//! destination class, source and boundary data - through the real NetworkAuthority::recv on the emulated bus
+use crate::{c10, util::*, Opts};
+pub fn exec(c: &[i64]) -> Vec<i64> { if c[0] == 100 { crate::authrig::exec(&c[1..]) } else { crate::units::exec(c) } }
+pub fn gen(o: &Opts, sink: &mut dyn FnMut(Vec<i64>, String)) {
+    crate::units::gen_mode(o, 1, sink);
+    let mut k: u64 = 0;
+    let mut rng = Rng::new(o.seed, 6_100);
+    let confs: [Vec<(i64, i64, Option<i64>, i64)>; 3] = [
+        vec![(1, 0x4a, None, 0), (4, 0x6a, None, 0), (5, 0x7a, None, 0)],
+        vec![(7, 0x00, Some(0x11), 1), (2, 0x12, None, 1), (1, 0x4a, None, 1)],
+        vec![(3, 0x20, None, 0), (6, 0x01, None, 2)],
+    ];
+    // all 256 PDU formats x destination / group-extension classes x sources (each configured unit, the daemon, a stranger)
+    // x data with a boundary value in the first byte; 32 frames per authority instance
+    let mut batch: Vec<i64> = Vec::new(); let mut nb = 0; let mut ci = 0usize;
+    let mut flush = |batch: &mut Vec<i64>, ci: usize, k: &mut u64, sink: &mut dyn FnMut(Vec<i64>, String)| {
+        if batch.is_empty() { return; }
+        *k += 1;
+        if mine(o, *k) { let mut c = vec![100]; c.extend(c10::config(&confs[ci % 3])); c.push(5); c.push(2); c.extend(batch.iter()); c.push(2); sink(c, String::new()); }
+        batch.clear();
+    };
+    let first_bytes: &[i64] = if o.tier_thorough { &[0, 1, 2, 16, 17, 19, 20, 32, 127, 128, 254, 255] } else { &[0, 1, 16, 32, 255] };
+    for pf in 0..256u32 {
+        for ps in [0xffu32, 0x27, 0x00, 0x4a] {
+            let srcs: Vec<i64> = { let mut v: Vec<i64> = confs[ci % 3].iter().map(|d| d.1).collect(); v.push(0x27); v.push(0x99); v };
+            for src in srcs {
+                if !o.tier_thorough && (pf as i64 + ps as i64 + src) % 3 != 0 && !(232..=238).contains(&pf) { continue; }
+                for b0 in first_bytes {
+                    let id = ((rng.below(8) as u32) << 26) | (pf << 16) | (ps << 8) | src as u32 | 0x8000_0000;
+                    let dlc = if rng.chance(1, 6) { rng.below(8) as i64 } else { 8 };
+                    batch.extend([1, id as i64, dlc, *b0]);
+                    for _ in 0..7 { batch.push(match rng.below(4) { 0 => 0, 1 => 255, _ => rng.byte() as i64 }); }
+                    nb += 1;
+                    if nb % 32 == 0 { flush(&mut batch, ci, &mut k, sink); ci += 1; }
+                }
+            }
+        }
+    }
+    flush(&mut batch, ci, &mut k, sink);
+}
